@@ -126,7 +126,11 @@ def c12_p3(t: P3, p: int, bound: int, unbounded: bool, perm: int) -> bool:
 
 def _seq_oracle(args, obs):
     prods, v, order = args
-    g = enc.ref_cfg(prods, v)
+    return _seq_judge(enc.ref_cfg(prods, v), order, obs, len(prods))
+
+
+def _seq_judge(g, order, obs, nprods):
+    prods = [None] * nprods
     tags = grammar_tags(g) + ["order_%s" % "".join(map(str, order))]
     gen = {("V", x) for x in OC.generating_vars(g)} | {("T", t) for t in g.terminals}
     nul = {("V", x) for x in OC.nullable_vars(g)}
@@ -180,6 +184,31 @@ def c12_sequence(t: P3, p: int, perm: int) -> bool:
         name, fn = SEQ_QUERIES[i]
         obs.append((name, chx.guarded(fn, g)))
     return chx.judge("C12", "c12_sequence", raw, (prods, 2, order), obs, _seq_oracle)
+
+
+def _seq_chain_oracle(args, obs):
+    from vlib.conds import chain
+    prods, v, order = args
+    return _seq_judge(chain.ref(prods), order, obs, len(prods))
+
+
+def c12_chain(sd: bool, aa: bool, bmask: int, cmask: int, perm: int) -> bool:
+    """
+    pre: 0 <= bmask < 16 and 0 <= cmask < 8 and 0 <= perm < 6
+    pre: pinned(sd=sd, aa=aa, bmask=bmask, perm=perm)
+    post: _
+    """
+    from vlib.conds import chain
+    raw = (sd, aa, bmask, cmask, perm)
+    prods = chain.decode_chain(sd, aa, bmask, cmask)
+    order = enc.perm_of(perm, 3)
+    chx.enter("c12_chain", raw)
+    g = chain.build(prods)
+    obs = []
+    for i in order + [3, 4, 5, 6, 7]:
+        name, fn = SEQ_QUERIES[i]
+        obs.append((name, chx.guarded(fn, g)))
+    return chx.judge("C12", "c12_chain", raw, (prods, 4, order), obs, _seq_chain_oracle)
 
 
 # doubling family: lengths 1,2,4,8 sit exactly on get_words' hand-tuned stopping rule
@@ -246,6 +275,11 @@ CONDS = [
                    "generating symbols, nullable symbols and get_words(2) asked on ONE object in 3 different orders, "
                    "then is_empty, contains([]), is_finite, reachable symbols, generate_epsilon",
           "thorough": "all grammars with 2-3 productions x all 6 orders"},
+         FUNCS, RULE, assumptions=ASSUME),
+    Cond("C12", c12_chain, lambda tier: product_pins(sd=[False, True], aa=[False, True], bmask=list(range(16)),
+                                                      perm=([0, 4] if tier == "quick" else [0, 1, 2, 3, 4, 5])),
+         {"quick": "the 512 'nullable chain' grammars over 4 variables: all queries on ONE object in 2 orders",
+          "thorough": "6 orders"},
          FUNCS, RULE, assumptions=ASSUME),
     Cond("C12", c12_doubling, _sh_doubling,
          {"quick": "8 hand-picked grammars over {S,A,B},{a,b} whose word lengths are 1,2,4,8 (doubling) x symbolic "
